@@ -57,7 +57,8 @@ UNH_RE = re.compile(r"unhandled (\w+) exception")
 SAN_RE = re.compile(r"(ERROR: AddressSanitizer|ERROR: LeakSanitizer|runtime error:|Assertion `.*' failed|SUMMARY: \w+Sanitizer)")
 
 ALL_PROFILES = ["arith", "order", "alias", "closure", "shadow", "loops", "records", "arrays", "catch",
-                "tailrec", "mix"]
+                "tailrec", "pipe", "mix"]
+PIPE_PCT = {"pipe": 65, "mix": 8}   # weight pp_pipe of the profiles (gen.ml): needed to re-print a case the same way
 
 
 def drv_env():
@@ -290,7 +291,8 @@ def shrink(nevrun, tmp, case, budget_s=90, max_rounds=60, want_crash=False):
         rounds += 1
         with open(os.path.join(d, "cur.txt"), "w") as f:
             f.write("m\t" + cur_ast + "\n")
-        rc, so, se = run_ocaml(["shrink", os.path.join(d, "cur.txt"), d], timeout=300)
+        rc, so, se = run_ocaml(["shrink", os.path.join(d, "cur.txt"), d] +
+                               (["pipe=%d" % PIPE_PCT[case["profile"]]] if case.get("profile") in PIPE_PCT else []), timeout=300)
         if rc != 0:
             break
         batch = os.path.join(d, "batch_shrink.txt")
